@@ -95,6 +95,7 @@ class Model:
         self.bstereo.update(other.bstereo)
         self.xy.update(other.xy)
         self.hyd.update(other.hyd)
+        self.aromatic = self.aromatic or other.aromatic
 
     def near(self, sources, dist):
         seen = set(x for x in sources if x in self.bonds)
@@ -193,7 +194,10 @@ def rebuild(mol, model, astereo, bstereo):
     r.calc_labels()
     if model.aromatic:
         for n, a in ra.items():
-            a._implicit_hydrogens = model.hyd.get(n)   # carried, not recomputable for aromatic forms
+            if any(b.order == 4 for b in rb[n].values()):
+                a._implicit_hydrogens = model.hyd.get(n)   # carried, not recomputable for atoms of aromatic rings
+            else:
+                r.calc_implicit(n)
     else:
         for n in ra:
             r.calc_implicit(n)
